@@ -261,24 +261,21 @@ theorem C16_metaKeyLine_needs_trigger (l : Str) (h : metaKeyLine l = true) : Py.
 /-- the entry condition of the meta-data preprocessor on the first line: a colon, or the line starts with `---` -/
 theorem C16_meta_needs_trigger (l : Str) (h : metaFirstLine l = true) :
     Py.contains l ":".toList = true ∨ startsWith l "---".toList = true := by
-  simp only [metaFirstLine, metaBeginLine, Bool.or_eq_true] at h
+  simp only [metaFirstLine, metaBeginLine, Meta.beginMatch, Bool.or_eq_true, Bool.and_eq_true] at h
   rcases h with h | h
   · exact Or.inl (C16_metaKeyLine_needs_trigger l h)
-  · exact Or.inr (by rw [show "---".toList = ['-', '-', '-'] from by decide]; exact h)
+  · exact Or.inr (by rw [show "---".toList = ['-', '-', '-'] from by decide]; exact h.1)
 
-/-- what `MetaPreprocessor.run` actually needs to change `lines`: the first line is blank, starts with `---` or `...`
-    (the end marker is honoured even when no meta-data was opened), or contains a colon -/
+/-- what `MetaPreprocessor.run` needs to change `lines`: the first line is blank, starts with `---` (the opener), or
+    contains a colon (since the repair of F-C16-3 an end marker is honoured only after an opener or a key) -/
 theorem C16_meta_consumes_needs_trigger (l : Str) (h : metaConsumes l = true) :
-    isBlank l = true ∨ startsWith l "---".toList = true ∨ startsWith l "...".toList = true ∨
-      Py.contains l ":".toList = true := by
-  rw [show "---".toList = ['-', '-', '-'] from by decide, show "...".toList = ['.', '.', '.'] from by decide]
-  simp only [metaConsumes, metaBeginLine, metaEndLine, Bool.or_eq_true] at h
-  rcases h with ((h | h) | h | h) | h
-  · exact Or.inr (Or.inl h)
+    isBlank l = true ∨ startsWith l "---".toList = true ∨ Py.contains l ":".toList = true := by
+  rw [show "---".toList = ['-', '-', '-'] from by decide]
+  simp only [metaConsumes, metaBeginLine, Meta.beginMatch, Bool.or_eq_true, Bool.and_eq_true] at h
+  rcases h with (h | h) | h
+  · exact Or.inr (Or.inl h.1)
   · exact Or.inl h
-  · exact Or.inr (Or.inl h)
-  · exact Or.inr (Or.inr (Or.inl h))
-  · exact Or.inr (Or.inr (Or.inr (C16_metaKeyLine_needs_trigger l h)))
+  · exact Or.inr (Or.inr (C16_metaKeyLine_needs_trigger l h))
 
 /-- document level: the first line of `doc.split('\n')` passes the entry condition only if the document contains a colon
     or starts with `---` -/
@@ -293,7 +290,9 @@ example : metaFirstLine "Title: My Doc".toList = true := by decide
 example : metaFirstLine "---".toList = true := by decide
 example : metaFirstLine "a b: c".toList = false ∧ Py.contains "a b: c".toList ":".toList = true := by decide
 example : metaFirstLine "    key: too deep".toList = false := by decide
-example : metaConsumes "... and so on".toList = true ∧ metaFirstLine "... and so on".toList = false := by decide
+-- F-C16-3 (repaired): a first line that merely starts like a delimiter is no longer consumed
+example : metaConsumes "... and so on".toList = false ∧ metaConsumes "...and so on".toList = false ∧
+    metaConsumes "----".toList = false ∧ metaConsumes "...".toList = false ∧ metaConsumes "--- x".toList = true := by decide
 example : metaConsumes "plain first line".toList = false := by decide
 example : lines "Title: x\nbody".toList = "Title: x".toList :: ["body".toList] := by decide
 
